@@ -160,10 +160,21 @@ Representable(s, b) == \A i \in 1..Len(b) : (b[i][1] * s.D * s.DK) % b[i][2] = 0
 (* the registered targets have been replaced by their fitted prediction.  The      *)
 (* harness reads the new B from the object, checks the fit post-condition against  *)
 (* a fresh object built from the registered state, and carries it forward.         *)
-FitInternal ==
+(* kind: 0 = fit(), 1 = fit_underdetermined(), 2 = minimize_variance(), 3 = fit_adaptive(): all of them, called     *)
+(* without explicit targets, store X and replace B by the fitted capture.  fit_underdetermined asks the target to be  *)
+(* reproduced (a constraint): it is only explored when every registered target is strictly inside the gamut.          *)
+FitKinds == 0..3
+FitInternal(kind) ==
   /\ est.reg /\ est.treg
+  /\ (kind = 1 => /\ D0 < Len(est.A[1])
+                  /\ est.nfit = 0          \* the registered (lattice) targets themselves, not an earlier prediction
+                  /\ LET s == AsSystem(est)
+                     IN \A k \in 1..Len(est.tB) : Representable(s, est.tB[k]) /\ ClassOf(s, TargetInt(s, est.tB[k])) = "interior")
+  (* fit_adaptive looks for a feasible pair of scales; with zero lower bounds and zero baseline the pair (0, 0) is  *)
+  (* always feasible, otherwise the feasible set may be empty (then the call raises): only the former is explored  *)
+  /\ (kind = 3 => (\A j \in 1..Len(est.lb) : est.lb[j][1] = 0) /\ (\A i \in 1..D0 : est.bl[i][1] = 0))
   /\ est' = [est EXCEPT !.fitted = TRUE, !.nfit = est.nfit + 1]
-  /\ Log(Act("fit", 0, FALSE, FALSE))
+  /\ Log(Act("fit", kind, FALSE, FALSE))
 
 (* ---- answers of the read-only queries ---------------------------------------- *)
 (* query inputs are fixed probes: spectra = BgPool, intensities = XaPool, targets  *)
@@ -227,7 +238,7 @@ Register ==
   \/ \E k \in 1..Len(XaPool), add \in BOOLEAN, ab \in BOOLEAN : RegisterSystemAdaptation(k, add, ab)
   \/ \E k \in 1..Len(TgtPool), wk \in 0..Len(WPool) : RegisterTargets(k, wk)
   \/ \E k \in 0..Len(UncPool) : RegisterUncertainty(k)
-  \/ FitInternal
+  \/ \E kind \in FitKinds : FitInternal(kind)
 ENext == Register \/ Query
 
 (* ---- properties ---------------------------------------------------------------- *)
